@@ -399,7 +399,62 @@ def case_pandas_divs(ctx, inp):
         ctx.fail("dd.repartition(pandas frame, divisions) does not keep the rows (index order)", observed=got)
 
 
-CASES = {"pandas_divs": case_pandas_divs, "pipeline": case_pipeline, "locslice_divs": case_locslice_divs, "partitions_divs": case_partitions_divs,
+JOINT_OPS = ("loc_slice", "filter", "assign", "project", "repartition_n", "repartition_d", "partitions", "partitions_slice")
+
+
+def case_joint(ctx, inp):
+    """JOINT / HISTORY: two pipelines over ONE source, observed alone, then together in one graph (all partitions of both
+    in one dask.compute), then alone again: the partitions (as multisets of (index, v)) and the reported divisions must
+    not depend on what else is in the graph or was computed before, and every result stays truthful."""
+    import dask
+    with dask.config.set(scheduler="sync"):
+        try:
+            d, p = _mk_source(inp)
+        except Exception as e:  # noqa: BLE001
+            ctx.fail("source construction raised: " + U.exc_name(e), observed=U.exc_name(e))
+            return
+        rs = []
+        for ops in inp["pipelines"]:
+            x, px = d, p
+            try:
+                for op in ops:
+                    x, px = _apply(op, x, px)
+            except (KeyError, ValueError, NotImplementedError):
+                ctx.branch("joint-rejected")
+                return
+            except Exception as e:  # noqa: BLE001
+                ctx.fail(f"pipeline step raised {U.exc_name(e)}", observed=[ops, U.exc_name(e)])
+                return
+            rs.append(x)
+
+        def canon(parts):
+            return [sorted((int(k), -1 if v != v else int(v)) for k, v in zip(pp.index, pp.v)) if "v" in pp else sorted(map(int, pp.index))
+                    for pp in parts]
+        try:
+            solo = [canon(U.partitions(r)) for r in rs]
+            dls = [r.to_delayed() for r in rs]
+            flat = dask.compute(*[x for dl in dls for x in dl])
+            joint, pos = [], 0
+            for dl in dls:
+                joint.append(canon(flat[pos:pos + len(dl)]))
+                pos += len(dl)
+            again = [canon(U.partitions(r)) for r in rs]
+        except Exception as e:  # noqa: BLE001
+            ctx.fail("joint evaluation of two pipelines of one source raised: " + U.exc_name(e), observed=U.exc_name(e))
+            return
+        for i, r in enumerate(rs):
+            if joint[i] != solo[i] or again[i] != solo[i]:
+                ctx.fail("the partitions of a pipeline depend on what else is computed with / before it",
+                         observed=[inp["pipelines"], i, joint[i][:6], solo[i][:6]])
+            divs = list(r.divisions)
+            if divs[0] is not None and not any(x != x for x in divs):
+                why = U.truthful(divs, U.partitions(r))
+                if why:
+                    ctx.fail("known divisions are not truthful (joint stream): " + why, observed=[divs, inp["pipelines"][i]])
+    ctx.branch("joint-" + "+".join(sorted({o[0] for ops in inp["pipelines"] for o in ops})[:3]))
+
+
+CASES = {"joint": case_joint, "pandas_divs": case_pandas_divs, "pipeline": case_pipeline, "locslice_divs": case_locslice_divs, "partitions_divs": case_partitions_divs,
          "concat_divs": case_concat_divs}
 
 
@@ -504,6 +559,17 @@ def generate(ctx):
         if len(b) < 2 or b != sorted(b) or len(set(b[:-1])) != len(b[:-1]) or b[0] > min(idx) or b[-1] < max(idx):
             continue
         yield "pandas_divs", {"index": idx, "b": [int(x) for x in b]}
+    for _ in range(ctx.n(25, 400)):
+        src = _rand_source(rng)
+        pls = []
+        for _k in range(2):
+            ops = []
+            while len(ops) < rng.choice([1, 1, 2]):
+                o = _rand_op(rng, False)
+                if o[0] in JOINT_OPS:
+                    ops.append(o)
+            pls.append(ops)
+        yield "joint", {"src": src, "pipelines": pls}
     for _ in range(ctx.n(200, 3300)):
         nops = rng.choice([0, 1, 1, 1, 2, 2, 3])
         src = _rand_source(rng)
